@@ -115,7 +115,7 @@ func C20(tier string) int {
 	nearAlphabet = append(nearAlphabet, pageItem{"embedded-other-host", M{"type": "Note", "id": "https://r2.example/a/A", "content": "r2"}, "https://r2.example/a/A"},
 		pageItem{"embedded-base", M{"type": "Note", "id": nearBase, "content": "r1"}, nearBase})
 	totalPages := 0
-	runPages := func(pageAlphabet []pageItem, maxLen int) {
+	runPages := func(pageAlphabet []pageItem, maxLen int, explicit ...[]int) {
 		// all item sequences
 		var seqsI [][]int
 		var gen func(cur []int)
@@ -128,9 +128,13 @@ func C20(tier string) int {
 				gen(append(cur, i))
 			}
 		}
-		gen(nil)
+		if len(explicit) > 0 {
+			seqsI = explicit
+		} else {
+			gen(nil)
+		}
 		totalPages += len(seqsI)
-		res.Rule = fmt.Sprintf("ordered-collection pages whose items are every sequence of length 0..%d over {IRI a, IRI b, embedded Note a, embedded Note b, embedded Create a, embedded value without id} (%d pages), and every sequence of length 0..3 over 11 items whose ids differ in exactly one URL component (host, scheme, fragment, query, port, trailing slash, case, sub-path; IRI and embedded), served through GetInbox and GetOutbox; every pair of {GetInbox, GetOutbox, handler x 2 values} handled concurrently on one Actor under the cooperative scheduler (all interleavings of seam calls and clock reads): each response carries the Digest of its own bytes and equals the one served alone; handler values of every vocabulary type, Tombstone, missing value, Get error; %d clock instants at second/day/year boundaries in 5 time zones; a third of the pages and half of the handler values served on a ResponseWriter that already carries stale Content-Type / Date / Digest values (each must end with exactly one, correct value); every sequence of 2-3 (thorough 4) read requests over 8 request kinds on ONE application and one handler value, each answered exactly as when served alone; oracle: body JSON-equal to the supplied value with (inbox) later duplicates of an id removed and order kept, Content-Type constant, Date = clock in RFC 7231 GMT form, Digest = base64 SHA-256 of the bytes written, 410 for a Tombstone, ErrNotFound with nothing written for a missing value; non-trivial = pages with at least one duplicate id or a handler value", maxLen, len(seqsI), len(clocks))
+		res.Rule = fmt.Sprintf("ordered-collection pages whose items are every sequence of length 0..%d over {IRI a, IRI b, embedded Note a, embedded Note b, embedded Create a, embedded value without id} (%d pages), and every sequence of length 0..3 over 11 items whose ids differ in exactly one URL component (host, scheme, fragment, query, port, trailing slash, case, sub-path; IRI and embedded), and 24 long pages (8 / 16 / 30 items in 8 duplicate patterns), served through GetInbox and GetOutbox; every pair of {GetInbox, GetOutbox, handler x 2 values} handled concurrently on one Actor under the cooperative scheduler (all interleavings of seam calls and clock reads): each response carries the Digest of its own bytes and equals the one served alone; handler values of every vocabulary type, Tombstone, missing value, Get error; %d clock instants at second/day/year boundaries in 5 time zones; a third of the pages and half of the handler values served on a ResponseWriter that already carries stale Content-Type / Date / Digest values (each must end with exactly one, correct value); every sequence of 2-3 (thorough 4) read requests over 8 request kinds on ONE application and one handler value, each answered exactly as when served alone; oracle: body JSON-equal to the supplied value with (inbox) later duplicates of an id removed and order kept, Content-Type constant, Date = clock in RFC 7231 GMT form, Digest = base64 SHA-256 of the bytes written, 410 for a Tombstone, ErrNotFound with nothing written for a missing value; non-trivial = pages with at least one duplicate id or a handler value", maxLen, len(seqsI), len(clocks))
 		var mu sync.Mutex
 		chunk := 400
 		parallel((len(seqsI)+chunk-1)/chunk, func(ci int) {
@@ -264,6 +268,48 @@ func C20(tier string) int {
 		})
 	}
 	runPages(nearAlphabet, 3)
+	// long pages (8, 16, 30 items) in structured duplicate patterns over 8 ids, each as IRI or embedded
+	var longAlpha []pageItem
+	for k := 0; k < 8; k++ {
+		id := fmt.Sprintf("https://r1.example/long/%d", k)
+		longAlpha = append(longAlpha, pageItem{fmt.Sprintf("iri%d", k), id, id}, pageItem{fmt.Sprintf("emb%d", k), M{"type": "Note", "id": id, "content": fmt.Sprint(k)}, id})
+	}
+	var longSeqs [][]int
+	for _, n := range []int{8, 16, 30} {
+		pat := map[string]func(i int) int{
+			"all-distinct-then-wrap": func(i int) int { return (i % 8) * 2 },
+			"all-the-same":           func(i int) int { return 0 },
+			"alternating-two":        func(i int) int { return (i % 2) * 2 },
+			"pairs":                  func(i int) int { return ((i / 2) % 8) * 2 },
+			"iri-then-embedded-twin": func(i int) int { return ((i/2)%8)*2 + i%2 },
+			"first-again-at-the-end": func(i int) int {
+				if i == n-1 {
+					return 0
+				}
+				return ((i % 7) + 1) * 2
+			},
+			"mirror": func(i int) int {
+				if i < n/2 {
+					return (i % 8) * 2
+				}
+				return ((n - 1 - i) % 8) * 2
+			},
+			"blocks-of-three-embedded": func(i int) int { return ((i/3)%8)*2 + 1 },
+		}
+		names := make([]string, 0, len(pat))
+		for k := range pat {
+			names = append(names, k)
+		}
+		sort.Strings(names)
+		for _, k := range names {
+			seq := make([]int, n)
+			for i := range seq {
+				seq[i] = pat[k](i)
+			}
+			longSeqs = append(longSeqs, seq)
+		}
+	}
+	runPages(longAlpha, 30, longSeqs...)
 	runPages(pageAlphabet, maxLen)
 	// ---- concurrent GETs: every interleaving (scheduling points: seam calls and clock reads) of two
 	// responses being produced at once; each must carry the Digest of its own bytes ----
